@@ -6,8 +6,207 @@ libsc's own enumeration starting at MPI_ERR_LASTCODE of the MPI library, here th
 translated from clang's AST with the ordinary c2g rules (switch statement, pointer-to-int output parameter);
 the only addition resolves enumerators that occur as values: `X` becomes the Gallina constant `<prefix>_X`,
 which a small compiled program (wrap/consts_c12.c, same headers, same configuration) prints with its number.
-The same program prints the errno values and the class numbers in one fixed order of names."""
+The same program prints the errno values and the class numbers in one fixed order of names.
+
+Second group OpenC12 (coq/Gen/OpenC12.v): the bodies of sc_io_parse_access_mode, sc_io_open, sc_io_close, sc_io_read, sc_io_write,
+sc_io_read_count and of the MPI I/O branches of sc_io_read_at / _read_at_all / _write_at / _write_at_all (plus sc_io_read_at /
+sc_io_write_at without MPI I/O), each in every configuration in which it exists: A = without MPI, C = MPI without MPI I/O
+(simulated mpi.h), B = MPI with MPI I/O (simulated mpi.h + tools/harness/c12_mpiio.h).  Conventions: tools/c2g/slicelib.py
+(calls as effects: ghost outputs <callee>_called / <callee>_arg<i>, result = parameter <callee>_ret) with these additions (class
+OpenT below):
+  * `(*p)->f` (p a pointer variable) is the location p_f, `*p` the location p_deref;
+  * `&<location>` passed to an effect call: the callee stores into it - afterwards the location holds the parameter
+    <callee>_out<i>; a pointer PARAMETER handed on (MPI_File_open (.., mpifile), MPI_Get_count (.., ocount)) likewise for the
+    location named in PTR_OUTS; for the buffer of a broadcast the value before the call is the ghost output <callee>_in<i>;
+  * errno after a stdio call is the parameter <callee>_errno;
+  * SC_CHECK_ABORT (c, ..) / SC_CHECK_MPI (r) do not end the slice: the output `ok` (1 at the start) becomes ok && c; SC_ABORT
+    sets it to 0: the other outputs are meaningful for ok = 1 only;
+  * a string literal is the number whose little-endian bytes are its characters ("rb" = 0x6272);
+  * an enumerator is the constant oc<cfg>_<name>, printed with its value by a C program compiled with the same headers;
+  * a value of the enumeration type sc_io_open_mode_t is the integer it denotes.
+coq/C12/OpenGen.v proves the per-rank programs of the models (FileModel.v, MpiioModel.v) equal to these definitions."""
 import os, subprocess
+import json
+
+ENUM_TYPES = ("sc_io_open_mode_t",)
+
+def str_code(s):
+    b = s.encode()
+    return sum(v << (8 * i) for i, v in enumerate(b))
+
+def make_OpenT(c2g, sl, prefix, ptr_outs, inout_args, skip_args, used_enums):
+    class OpenT(sl.SliceT):
+        ret_void = property(lambda self: False, lambda self, v: None)
+        def __init__(self, **kw):
+            super().__init__(**kw)
+            self.out_of = {}        # id(call) -> [(arg index, location key)]
+        # ---- locations
+        def deref_field(self, n):
+            n = c2g.skip_parens(n)
+            if n.get("kind") == "MemberExpr" and n.get("isArrow"):
+                b = sl.strip(n["inner"][0])
+                if b.get("kind") == "UnaryOperator" and b.get("opcode") == "*":
+                    p = sl.strip(b["inner"][0])
+                    if p.get("kind") == "DeclRefExpr":
+                        return "%s_%s" % (p["referencedDecl"]["name"], n["name"])
+            return None
+        def lvalue_key(self, n):
+            k = self.deref_field(n)
+            if k is not None:
+                return k
+            return super().lvalue_key(n)
+        def out_loc(self, a):
+            """`&<location>` -> its key, else None"""
+            a = sl.strip(a)
+            if a.get("kind") == "UnaryOperator" and a.get("opcode") == "&":
+                try:
+                    return self.lvalue_key(a["inner"][0])
+                except c2g.Unsupported:
+                    raise c2g.Unsupported("address of a non-location passed to a call in %s" % self.fname)
+            return None
+        def outs_of(self, call):
+            nm = sl.callee_name(call)
+            res = []
+            for i, a in enumerate(call["inner"][1:]):
+                o = self.out_loc(a)
+                if o is not None:
+                    res.append((i, o))
+                elif i in ptr_outs.get(nm, {}):
+                    res.append((i, ptr_outs[nm][i]))
+            return res
+        def arg_is_ghost(self, callee, i, a):
+            if i in skip_args.get(callee, ()):
+                return False
+            return self.out_loc(a) is None and i not in ptr_outs.get(callee, {})
+        def scan(self, stmts):
+            super().scan(stmts)
+            # in/out arguments (the buffer of a broadcast): ghost <pre>_in<i> = value of the location before the call
+            def f(n):
+                pre = self.ghost_of.get(id(n))
+                if pre is not None and n.get("kind") == "CallExpr":
+                    nm = sl.callee_name(n)
+                    for i in inout_args.get(nm, ()):
+                        g = "%s_in%d" % (pre, i)
+                        if g not in self.ghosts:
+                            # keep source order: right after <pre>_called
+                            self.ghosts.insert(self.ghosts.index(pre + "_called") + 1, g)
+                if self.abort_cond_of(n) is not None and "ok" not in self.ghosts:
+                    self.ghosts.append("ok")
+                if n.get("kind") == "CallExpr" and sl.callee_name(n) in sl.ABORTS and "ok" not in self.ghosts:
+                    self.ghosts.append("ok")
+            for s in stmts:
+                sl.walk(s, f)
+        # ---- expressions
+        def expr(self, n, env):
+            k = n.get("kind")
+            if k in ("ImplicitCastExpr", "CStyleCastExpr") and n.get("castKind") == "IntegralCast":
+                inner = n["inner"][0]
+                ty = inner.get("type", {})
+                if c2g.int_type(c2g.tystr(inner)) is None and ((ty.get("desugaredQualType") or ty.get("qualType", "")).startswith("enum ") or c2g.strip_quals(ty.get("qualType", "")) in ENUM_TYPES):
+                    return self.expr(inner, env)       # an enumeration value is the integer it denotes
+            if k == "StringLiteral":
+                return c2g.lit(str_code(json.loads(n["value"])))
+            if k == "DeclRefExpr" and n.get("referencedDecl", {}).get("kind") == "EnumConstantDecl":
+                used_enums.add(n["referencedDecl"]["name"])
+                return c2g.E("%s_%s" % (prefix, n["referencedDecl"]["name"]), "Z", True)
+            if k == "MemberExpr" and self.deref_field(n) is not None:
+                return c2g.E(self.lookup(env, self.deref_field(n)), "Z", True)
+            return super().expr(n, env)
+        def referenced(self, s, acc):
+            if s.get("kind") == "MemberExpr" and self.deref_field(s) is not None:
+                acc.add(self.deref_field(s))
+                return
+            super().referenced(s, acc)
+        def assigned(self, s, acc, declared):
+            super().assigned(s, acc, declared)
+            def f(n):
+                if n.get("kind") == "CallExpr" and id(n) in self.ghost_of:
+                    for _, loc in self.outs_of(n):
+                        acc.add(loc)
+                    if sl.callee_name(n) in self.clobbers:
+                        for o in self.clobbers[sl.callee_name(n)]:
+                            acc.add(o)
+                if self.abort_cond_of(n) is not None:
+                    acc.add("ok")
+            sl.walk(s, f)
+        # ---- statements
+        def abort_cond_of(self, s):
+            """SC_CHECK_ABORT (c, ..) / SC_CHECK_MPI (r) = `(c) ? (void) 0 : sc_abort_verbose (..)`: the node of c"""
+            if not isinstance(s, dict):
+                return None
+            t = c2g.skip_parens(s)
+            if t.get("kind") == "ConditionalOperator" and c2g.tystr(t) == "void" and \
+                    sl.callee_name(sl.strip(t["inner"][2])) in sl.ABORTS and sl.callee_name(sl.strip(t["inner"][1])) is None:
+                return t["inner"][0]
+            return None
+        def effect_stmt(self, s):
+            k = s.get("kind")
+            call, lhs, rhs = None, None, None
+            if k == "CallExpr":
+                call = s
+            elif k in ("ParenExpr", "CStyleCastExpr", "ImplicitCastExpr") and sl.strip(s).get("kind") == "CallExpr" and not self.is_noop(s):
+                call = sl.strip(s)
+            elif k == "BinaryOperator" and s.get("opcode") == "=" and sl.strip(s["inner"][1]).get("kind") == "CallExpr":
+                call = sl.strip(s["inner"][1])
+                lhs = self.resolve_alias(self.lvalue_key(s["inner"][0]))
+                rhs = s["inner"][1]
+            elif k == "DeclStmt" and len(s.get("inner", [])) == 1:
+                d = s["inner"][0]
+                init = [c for c in d.get("inner", []) if isinstance(c, dict)]
+                if init and sl.strip(init[0]).get("kind") == "CallExpr":
+                    call, lhs, rhs = sl.strip(init[0]), d["name"], init[0]
+            if call is not None and id(call) in self.ghost_of:
+                return call, lhs, rhs
+            return None, None, None
+        def stmts(self, ss, env, K):
+            if ss:
+                s, rest = ss[0], list(ss[1:])
+                c = self.abort_cond_of(s)
+                if c is not None:
+                    ce = self.expr(c, env)
+                    return self.assign("ok", c2g.E("(z2b %s) && %s" % (self.lookup(env, "ok"), ce.b()), "bool"), env, rest, K)
+                if s.get("kind") == "CallExpr" and sl.callee_name(s) in sl.ABORTS:
+                    # SC_ABORT (..): unconditional
+                    return self.assign("ok", c2g.E("0", "Z", True), env, rest, K)
+                call, lhs, rhs = self.effect_stmt(s)
+                if call is not None:
+                    pre = self.ghost_of[id(call)]
+                    name = sl.callee_name(call)
+                    pairs = [(pre + "_called", c2g.E("1", "Z", True))]
+                    for i in inout_args.get(name, ()):
+                        loc = dict(self.outs_of(call)).get(i)
+                        if loc is None:
+                            raise c2g.Unsupported("%s: in/out argument %d of %s is not the address of a location" % (self.fname, i, name))
+                        pairs.append(("%s_in%d" % (pre, i), c2g.E(self.lookup(env, loc), "Z", True)))
+                    for i, a in enumerate(call["inner"][1:]):
+                        if self.arg_is_ghost(name, i, a):
+                            pairs.append(("%s_arg%d" % (pre, i), self.expr(a, env)))
+                    env1 = dict(env)
+                    for o in self.clobbers.get(name, ()):
+                        env1[o] = self.lookup({}, "%s_%s" % (pre, o))
+                    for i, loc in self.outs_of(call):
+                        env1[loc] = self.lookup({}, "%s_out%d" % (pre, i))
+                    if lhs is not None:
+                        retp = c2g.E(self.lookup({}, pre + "_ret"), "Z", True)
+                        saved = dict(self.call_hooks)
+                        self.call_hooks[name] = lambda T_, n_, e_: retp
+                        try:
+                            val = self.expr(rhs, env1)
+                        finally:
+                            self.call_hooks = saved
+                        pairs.append((lhs, val))
+                    return self.ghost_assign(pairs, env1, rest, K)
+            return super().stmts(ss, env, K)
+    return OpenT
+
+def emit_with(sl, stmts, gname, outputs, fname, T, **kw):
+    saved = sl.SliceT
+    sl.SliceT = T
+    try:
+        return sl.emit_block(stmts, gname, outputs, fname, **kw)
+    finally:
+        sl.SliceT = saved
+
 
 
 def register(GROUPS, c2g, incs, REPO, HERE, STRUCTS, Group):
@@ -61,3 +260,107 @@ def register(GROUPS, c2g, incs, REPO, HERE, STRUCTS, Group):
                    os.path.join(HERE, "wrap", "consts_c12.c")]
 
     GROUPS["ErrClassC12"] = gen
+
+
+    # ------------------------------------------------------------------------------------------------ group OpenC12
+    PTR_OUTS = {"MPI_File_open": {4: "mpifile_deref"}, "MPI_File_close": {0: "mpifile_deref"},
+                "sc_io_read_count": {2: "ocount_deref"}, "MPI_Get_count": {2: "ocount_deref"}}
+    INOUT = {"MPI_Bcast": (0,), "sc_MPI_Bcast": (0,)}
+    SKIP = {"sc_malloc": (0,), "sc_free": (0,)}
+    STDIO = ("fopen", "fclose", "fread", "fwrite", "fseek", "ftell", "fflush")
+    # function -> (configurations, extra output locations)
+    SLICES = [("sc_io_parse_access_mode", "ACB", ["mode_deref"]),
+              ("sc_io_open", "AC", ["mpifile_deref", "mpifile_file"]), ("sc_io_open", "B", ["mpifile_deref"]),
+              ("sc_io_close", "ACB", ["mpifile_deref"]),
+              ("sc_io_read", "ACB", []), ("sc_io_write", "ACB", []),
+              ("sc_io_read_count", "B", ["ocount_deref"]),
+              ("sc_io_read_at", "ACB", ["ocount_deref"]), ("sc_io_write_at", "ACB", ["ocount_deref"]),
+              ("sc_io_read_at_all", "B", ["ocount_deref"]), ("sc_io_write_at_all", "B", ["ocount_deref"])]
+
+    def gen_open(tmp):
+        import slicelib as sl
+        g = Group("OpenC12")
+        f = os.path.join(REPO, "src", "sc_io.c")
+        simdir = os.path.join(os.path.dirname(HERE), "simmpi")
+        mioh = os.path.join(os.path.dirname(HERE), "harness", "c12_mpiio.h")
+        cfg = {}
+        for nm, mpi, defs in (("A", "off", ()), ("C", "sim", ()), ("B", "sim", ("SC_ENABLE_MPIIO",))):
+            d = os.path.join(tmp, "incO12" + nm)
+            os.makedirs(d, exist_ok=True)
+            vlib.make_config_h(os.path.join(d, "sc_config.h"), mpi, True, False, defs)
+            cfg[nm] = [d] + ([simdir] if nm != "A" else []) + incs(tmp)[1:]
+        # configuration B: an mpi.h that adds the MPI I/O declarations to the simulated one
+        mio = os.path.join(tmp, "mioO12")
+        os.makedirs(mio, exist_ok=True)
+        open(os.path.join(mio, "mpi.h"), "w").write('#include_next <mpi.h>\n#include "%s"\n' % mioh)
+        cfg["B"].insert(1, mio)
+        used = {"A": set(), "C": set(), "B": set()}
+        texts = []
+        asts = {}
+        for fname, cfgs, extra in SLICES:
+            for nm in cfgs:
+                if (fname, nm) not in asts:
+                    asts[(fname, nm)] = c2g.find_function(c2g.clang_ast(f, fname, cfg[nm]), fname)
+                F = asts[(fname, nm)]
+                body = [c for c in F["inner"] if c.get("kind") == "CompoundStmt"][0]
+                calls = set()
+                sl.walk(F, lambda n: calls.add(sl.callee_name(n)) if n.get("kind") == "CallExpr" else None)
+                eff = tuple(sorted(c for c in calls if c and c not in sl.ABORTS and c != "__errno_location"))
+                T = make_OpenT(c2g, sl, "oc" + nm, PTR_OUTS, INOUT, SKIP, used[nm])
+                params = tuple(p["name"] for p in F["inner"] if p.get("kind") == "ParmVarDecl")
+                isvoid = F["type"]["qualType"].startswith("void")
+                t, i = emit_with(sl, list(body.get("inner", [])), "%s_%s" % (fname, nm), ["*ghosts"] + extra + ([] if isvoid else ["ret"]), fname, T,
+                                 params=params, ret=None if isvoid else "ret", effects=eff, effect_called=True, init={"ok": "1"},
+                                 clobbers=dict((k, ("errno",)) for k in STDIO),
+                                 comment="%s, configuration %s: returns (%s)" % (fname, nm, ", ".join(["<ghost outputs in source order>"] + extra + ([] if isvoid else ["returned value"]))))
+                i["outputs_text"] = ", ".join(i["outputs"])
+                t = t.replace("(<ghost outputs in source order>", "(" + ", ".join(o for o in i["outputs"] if o not in extra and o != "ret"), 1).replace("returns (, ", "returns (", 1)
+                texts.append((t, i))
+        # the modes with which the token-passing fallback opens the file (in the turn of a rank > 0, and the re-open of rank 0)
+        modes = {}
+        for fname in ("sc_io_read_at_all", "sc_io_write_at_all"):
+            F = c2g.find_function(c2g.clang_ast(f, fname, cfg["C"]), fname)
+            calls = sl.find_nodes(F, lambda n: n.get("kind") == "CallExpr" and sl.callee_name(n) == "fopen")
+            lits = []
+            for cnode in calls:
+                a = sl.strip(cnode["inner"][2])
+                if a.get("kind") != "StringLiteral":
+                    raise c2g.Unsupported("%s: fopen is not called with a literal mode" % fname)
+                lits.append(str_code(json.loads(a["value"])))
+            modes[fname] = lits
+        # constants: enumerators used by the slices, amode enumerators, MPI_MODE_* bits, MPI_UNDEFINED, string codes
+        out = ""
+        for nm in "ACB":
+            names = sorted(used[nm] | {"SC_IO_READ", "SC_IO_WRITE_CREATE", "SC_IO_WRITE_APPEND"})
+            prog = "#include <sc.h>\n#include <sc_io.h>\n#include <stdio.h>\nint main (void) {\n"
+            for x in names:
+                prog += '  printf ("Definition oc%s_%s : Z := %%lld.\\n", (long long) (%s));\n' % (nm, x, x)
+            if nm == "B":
+                for x in ("MPI_MODE_RDONLY", "MPI_MODE_WRONLY", "MPI_MODE_RDWR", "MPI_MODE_CREATE", "MPI_MODE_EXCL", "MPI_MODE_APPEND", "MPI_UNDEFINED", "MPI_SUCCESS"):
+                    prog += '  printf ("Definition ocB_%s : Z := %%lld.\\n", (long long) (%s));\n' % (x, x)
+            prog += "  return 0;\n}\n"
+            cpath = os.path.join(tmp, "oc12_%s.c" % nm)
+            open(cpath, "w").write(prog)
+            exe = os.path.join(tmp, "oc12_%s" % nm)
+            p = subprocess.run(["gcc", "-w"] + ["-I" + i for i in cfg[nm]] + [cpath, "-o", exe], stdout=subprocess.PIPE, stderr=subprocess.STDOUT)
+            if p.returncode != 0:
+                raise c2g.Unsupported("constants program of configuration %s does not compile: %s" % (nm, p.stdout.decode()[-400:]))
+            out += subprocess.run([exe], stdout=subprocess.PIPE).stdout.decode()
+        # the class numbers of configuration B by the names of sc_mpi.h (same order as cA_classes / cC_classes)
+        out += consts(tmp, cfg["B"], (), "cB")
+        for s_ in ("rb", "wb", "ab"):
+            out += "Definition oc_str_%s : Z := %d.\n" % (s_, str_code(s_))
+        out += "Definition oc_fallback_modes_read : list Z := [%s].\n" % "; ".join(str(v) for v in modes["sc_io_read_at_all"])
+        out += "Definition oc_fallback_modes_write : list Z := [%s].\n" % "; ".join(str(v) for v in modes["sc_io_write_at_all"])
+        g.add(out, dict(name="consts_OpenC12", lines=out.count("\n")))
+        # MPI_Error_class of the simulated MPI library: what sc_io_error_class IS in configuration B on that library
+        simc = os.path.join(simdir, "simmpi.c")
+        fn = c2g.find_function(c2g.clang_ast(simc, "MPI_Error_class", [simdir]), "MPI_Error_class")
+        t, i = c2g.translate_function(fn, gname="sim_MPI_Error_class", extra_params=[("errorclass", "Z")])
+        g.add(t, i)
+        for t, i in texts:
+            g.add(t, i)
+        return g, [f, os.path.join(REPO, "src", "sc_mpi.h"), os.path.join(REPO, "src", "sc_io.h"), mioh,
+                   os.path.join(HERE, "wrap", "consts_c12.c"), simc]
+
+    GROUPS["OpenC12"] = gen_open
